@@ -543,9 +543,60 @@ func checkC01(c *Ctx, r *Report) {
 			}
 			return true
 		}
+		// the same reset written out in the loop (`if body != nil && attempt > 0 { r.Body = NopCloser(NewReader(body)) }`):
+		// the store and the tests that guard it — only "there is a preserved body" and "this is not the first attempt"
+		// — stand for the resetter call
+		inlineReset := map[ssa.Instruction]bool{}
+		eachInstr(loopFn, func(in ssa.Instruction) {
+			st, isSt := in.(*ssa.Store)
+			if !isSt || !isField(st.Addr, "net/http", "Request", "Body") {
+				return
+			}
+			call, isC := st.Val.(*ssa.Call)
+			if !isC || describeCall(&call.Call).Name != "NopCloser" {
+				return
+			}
+			inner := call.Call.Args[0]
+			if mi, isMI := inner.(*ssa.MakeInterface); isMI {
+				inner = mi.X
+			}
+			c2, isC2 := inner.(*ssa.Call)
+			if !isC2 || describeCall(&c2.Call).Name != "NewReader" {
+				return
+			}
+			pv := c2.Call.Args[0]
+			if sl, ok := pv.Type().Underlying().(*types.Slice); !ok || sl.Elem().String() != "byte" {
+				return
+			}
+			preserved = pv
+			inlineReset[in] = true
+			for b := st.Block(); len(b.Preds) == 1; b = b.Preds[0] {
+				p := b.Preds[0]
+				ifi, ok := lastInstr(p).(*ssa.If)
+				if !ok || p.Succs[0] != b {
+					break
+				}
+				bo, ok := ifi.Cond.(*ssa.BinOp)
+				if !ok {
+					break
+				}
+				allowed := false
+				if bo.Op == token.NEQ && bo.X == pv && isNilConst(bo.Y) {
+					allowed = true
+				}
+				if k, isK := constInt(bo.Y); bo.Op == token.GTR && isK && k == 0 {
+					allowed = true
+				}
+				if !allowed {
+					break
+				}
+				inlineReset[ifi] = true
+			}
+		})
+		resetOrInline := func(in ssa.Instruction) bool { return inlineReset[in] || resetCall(in) }
 		for _, site := range sites {
 			key := fname(loopFn) + ":body-replayed-per-attempt"
-			if reachAvoiding(site, site, resetCall) {
+			if reachAvoiding(site, site, resetOrInline) {
 				r.Bad("C01-R4", key, site.Pos(), "a retry can start without re-arming the request body from the preserved bytes: the next backend receives an empty or partial body")
 				continue
 			}
